@@ -41,6 +41,40 @@ let run () =
              List.iter (fun (x, y) -> Printf.printf " %s %s;" (hx x) (hx y)) path
          | None -> Printf.printf " | 0 |");
         print_newline ()
+    | "LRRT" :: maxd :: bias :: thr :: iters :: tseed :: rest ->
+        let maxd = float_of_string maxd and bias = float_of_string bias and thr = float_of_string thr
+        and iters = int_of_string iters and tseed = int_of_string tseed in
+        let rest = ref rest in
+        let next () = match !rest with x :: t -> rest := t; x | [] -> "0" in
+        let nf () = float_of_string (next ()) in
+        let _ = next () in let nw = int_of_string (next ()) in
+        let walls = List.init nw (fun _ -> let w = nf () in let lo = nf () in let hi = nf () in (w, lo, hi)) in
+        let _ = next () in let ns = int_of_string (next ()) in
+        let starts = List.init ns (fun _ -> let x = nf () in let y = nf () in (x, y)) in
+        let _ = next () in let gx = nf () in let gy = nf () in
+        let _ = next () in let np = int_of_string (next ()) in
+        let samples = List.init np (fun _ -> let x = nf () in let y = nf () in (x, y)) in
+        let dist (ax, ay) (bx, by) = let dx = ax -. bx and dy = ay -. by in sqrt (0.0 +. dx *. dx +. dy *. dy) in
+        let steer (nx, ny) (rx, ry) =
+          let d = dist (nx, ny) (rx, ry) in
+          if d > maxd then (let t = maxd /. d in (nx +. (rx -. nx) *. t, ny +. (ry -. ny) *. t)) else (rx, ry) in
+        let touches (w, lo, hi) (ax, ay) (bx, by) =
+          if (ax -. w) *. (bx -. w) > 0.0 then false
+          else if ax = bx then (if ay <= by then ay <= hi && lo <= by else by <= hi && lo <= ay)
+          else (let t = (w -. ax) /. (bx -. ax) in let y = ay +. t *. (by -. ay) in lo <= y && y <= hi) in
+        let mv a b = not (List.exists (fun k -> touches k a b) walls) in
+        let gdist s = dist s (gx, gy) in
+        let sat s = gdist s < thr in
+        let hits = List.init iters (fun k -> float_of_int ((tseed + 7 * k + 3 * k * k) mod 64) /. 64.0 < bias) in
+        let st = lazy_solve dist (fun a b -> a < b) steer mv sat gdist (gx, gy) (0.0, 0.0) starts hits samples in
+        let tree = st.ls_tree in
+        let pos i = let rec go k = function [] -> -1 | n :: t -> if int_of_nat n.l_id = i then k else go (k + 1) t in go 0 tree in
+        Printf.printf "lrrt %d;" (List.length tree);
+        List.iter (fun n -> let (x, y) = n.l_state in Printf.printf " %s %s %d %d;" (hx x) (hx y) (match n.l_parent with Some p -> pos (int_of_nat p) | None -> -1) (if n.l_valid then 1 else 0)) tree;
+        (match st.ls_sol with
+         | Some (path, _) -> Printf.printf " | 1 0 |"; List.iter (fun (x, y) -> Printf.printf " %s %s;" (hx x) (hx y)) path
+         | None -> Printf.printf " | 0 |");
+        print_newline ()
     | "RRTC" :: maxd :: rest ->
         let maxd = float_of_string maxd in
         let rest = ref rest in
